@@ -108,6 +108,35 @@ Theorem C16_ring_no_deadlock :
 Proof. intros K B prog s HK HB. exact (ring_no_stuck_proof K B HK HB prog s). Qed.
 Print Assumptions C16_ring_no_deadlock.
 
+(* the file written by the threaded output stream equals the concatenation of all writes made to it
+   (write() calls of any size and in-place formatted values, operator<< of numbers, which hand over
+   partially filled blocks):
+   (1) at every moment, under every schedule, the bytes handed to the writer so far are a prefix of that
+   concatenation (nothing lost, duplicated or reordered); (2) once the destructor has returned (owner
+   finished, i.e. the writer thread was joined) the file is exactly the concatenation and was flushed once *)
+Theorem C16_ring_file_is_concatenation_of_writes :
+  forall K B prog s, 2 <= K -> 1 <= B -> Forall (rop_ok B) prog ->
+  reachable (ring_step K B) (ring_init (ring_output_init K) (ring_trash_init K) B prog) s ->
+  (exists rest, r_file s ++ rest = allbytes prog) /\
+  (r_ppc s = RPDone -> r_cpc s = RCDone -> r_file s = allbytes prog /\ r_flushes s = 1).
+Proof.
+  intros K B prog s HK HB Hok Hr. split.
+  - exact (ring_file_prefix_proof K B HK HB prog Hok s Hr).
+  - exact (ring_file_complete_proof K B HK HB prog Hok s Hr).
+Qed.
+Print Assumptions C16_ring_file_is_concatenation_of_writes.
+
+(* destroying the stream always flushes the remainder and joins its writer thread: every schedule of
+   constructor, writes and destructor is FINITE (a natural-number measure decreases with every step of
+   either thread), it can only end with both threads finished (C16_ring_no_deadlock), and then the file is
+   complete and flushed (C16_ring_file_is_concatenation_of_writes) *)
+Theorem C16_ring_destructor_always_completes :
+  forall K B prog ls s, 2 <= K -> 1 <= B -> Forall (rop_ok B) prog ->
+  run (ring_step K B) (ring_init (ring_output_init K) (ring_trash_init K) B prog) ls = Some s ->
+  length ls <= rmeasure B (ring_init (ring_output_init K) (ring_trash_init K) B prog).
+Proof. intros K B prog ls s HK HB Hok. exact (ring_runs_bounded_proof K B HK HB prog Hok ls s). Qed.
+Print Assumptions C16_ring_destructor_always_completes.
+
 (* with a single block the protocol of the source WOULD deadlock in the destructor (why K >= 2 is needed):
    the owner waits for a free block after posting the poison, the writer exits without freeing one *)
 Theorem C16_ring_one_block_deadlocks :
@@ -123,7 +152,7 @@ Proof. split; apply Nat.leb_le; vm_compute; reflexivity. Qed.
 (* a run with two writes crossing a block boundary (K = 3, B = 4) that ends with both threads finished and
    the bytes in the file in order *)
 Example C16_nonvacuous_ring_run :
-  match run (ring_step 3 4) (ring_init (ring_output_init 3) (ring_trash_init 3) 4 [[1; 2; 3]; [4; 5; 6]]%Z)
+  match run (ring_step 3 4) (ring_init (ring_output_init 3) (ring_trash_init 3) 4 [RWrite [1; 2; 3]%Z; RWrite [4; 5; 6]%Z])
             [0; 0; 0; 0; 0; 0; 0; 0; 0; 0; 1; 1; 1; 1; 0; 1; 1; 1; 1; 1; 1; 1; 0; 0] with
   | Some s => r_ppc s = RPDone /\ r_cpc s = RCDone /\ r_file s = [1; 2; 3; 4; 5; 6]%Z /\ r_flushes s = 1
   | None => False
